@@ -142,7 +142,7 @@ def main():
     for c in cases:
         c['e'][5] = c['e'][5]; c['e'][6] = c['e'][6]
     # bytes are not JSON serialisable: keep cases as python objects (the harness falls back to repr)
-    results = chk.run_cases(case, cases, label='parser entry points', case_timeout=200 if chk.tier == 'quick' else 900)
+    results = chk.run_cases(case, cases, label='parser entry points', case_timeout=600 if chk.tier == 'quick' else 2400)
 
     def replay(v):
         w = v['witness']
